@@ -614,6 +614,35 @@ def _run(case, ctx, b, SPSDKError, MasterBootImage):  # noqa: C901
             elif not _eq_outside(data_b, data, _sig_field(b, data, rep) + _isk_dependent(b, data, rep)):
                 viol(f"second-export-differs:{export_mixin(b)}", first_diff=_first_diff(data_b, data), len1=len(data), len2=len(data_b))
 
+    # ---- 6c. the same object with ANOTHER application (a batch that swaps the firmware per variant): the third file
+    # describes and returns the new application like a file from a fresh object would
+    if ctx._viol_in_case == viol0 and is_ivt and rep is not None and not o.get("reloc") and ctx.rng.random() < 0.35:
+        new_app = bytes(obj.app) + bytes([0x5A, 0xA5, 0x3C, 0xC3]) * ctx.rng.choice([1, 16, 0x40, 0x101])
+        try:
+            obj.app = new_app
+            data_c = bytes(obj.export())
+        except SPSDKError as e:
+            ctx.note("export_after_app_change_refused", core.exc_brief(e))
+            data_c = None
+        if data_c is not None:
+            ctx.count("export_after_app_change")
+            try:
+                mbi_rom.walk(data_c, prof)
+                par_c = MasterBootImage.parse(family, data_c, dek=b.dek, revision=b.revision)
+                got_c = bytes(par_c.app or b"")
+                # (the vector-table area carries the header words export writes: compared behind it)
+                ok_c = len(got_c) >= len(new_app) and got_c[0x40:len(new_app)] == new_app[0x40:] and not any(got_c[len(new_app):])
+                why = "parsed application differs from the new application"
+            except core.RefReject as e:
+                ok_c, why = False, f"header does not describe the file: {e}"
+            except Exception as e:  # pylint: disable=broad-except
+                if not core.is_refusal(e) and core.origin_of(e) != "repo":
+                    raise
+                ok_c, why = False, f"parse failed: {core.exc_brief(e)}"
+            if not ok_c:
+                viol(f"export-after-application-change:{export_mixin(b)}", why=why, first_len=len(data), new_len=len(data_c),
+                     app_len_first=len(got_app), app_len_new=len(new_app))
+
     # ---- 7. CLI --------------------------------------------------------------------------------------
     if case.get("cli") and ctx._viol_in_case == viol0:
         _cli(ctx, b, data, rep, want_app, dontcare, viol)
